@@ -71,9 +71,13 @@ BitRevU(L, n) ==
 \*   swap        : Dft(L)                 / its adjoint
 \*   without swap: the same transform with the output register left in bit-reversed order,
 \*                 BitRev o Dft(L)        / its adjoint  Dft(L)^+ o BitRev
+BitRevIdx(x0, L, n) == SetReg(x0, L, n, BitRevVal(RegVal(x0, L, n), Len(L)))
+\* BitRevU o A (rows permuted) and A o BitRevU (columns permuted); BitRevU is an involution (checked in C20Qft)
+BitRevRows(A, L, n) == TLCEval([col \in 1..Dim(n) |-> TLCEval([row \in 1..Dim(n) |-> A[col][BitRevIdx(row - 1, L, n) + 1]])])
+BitRevCols(A, L, n) == TLCEval([col \in 1..Dim(n) |-> A[BitRevIdx(col - 1, L, n) + 1]])
 QftExpected(L, n, inverse, swap) ==
   LET d   == Dim(n)
-      fwd == IF swap THEN Dft(L, n) ELSE MatMul(BitRevU(L, n), Dft(L, n), d)
+      fwd == IF swap THEN Dft(L, n) ELSE BitRevRows(Dft(L, n), L, n)
   IN IF inverse THEN MatAdj(fwd, d) ELSE fwd
 
 \* ---- algorithm model of the textbook construction (H + controlled-phase ladder + swaps) ----
@@ -89,6 +93,55 @@ QftModel(L, inverse, swap) ==
   LET sw == IF swap THEN QftSwaps(L) ELSE <<>>
   IN IF inverse THEN sw \o RevSeq(QftRotations(L, Len(L), -1))
      ELSE QftRotations(L, Len(L), 1) \o sw
+
+\* ---- Fourier transform applied to a vector (no dense matrix) ---------------------
+ApplyDftVec(psi, L, n, sgn) ==
+  LET w    == Len(L)
+      N    == Pow2(w)
+      unit == M \div N
+      amp  == RPow(InvSqrt2, w)
+  IN TLCEval([y \in 1..Dim(n) |->
+       Mul(amp, SumRing(TLCEval([v1 \in 1..N |->
+              Mul(Zeta(sgn * unit * (((v1 - 1) * RegVal(y - 1, L, n)) % N)), psi[SetReg(y - 1, L, n, v1 - 1) + 1])]), N))])
+
+\* ---- exact time evolution under a sum of pairwise commuting Pauli words ------------
+\* (same semantics as C06Defs: exp(-i c P) = cos c - i sin c P, c = 2 pi k / M, controlled on the qubits `ctrl`)
+QWordVec(w, psi, n) ==
+  TLCEval([x \in 1..Dim(n) |-> LET y0 == ActWord(w, x - 1, n).y IN Mul(IPow(ActWord(w, y0, n).p), psi[y0 + 1])])
+QExpWord(w, k, ctrl, psi, n) ==
+  LET pv == QWordVec(w, psi, n)
+      cs == CosG(k)
+      ms == Mul(Neg(RI), SinG(k))
+  IN TLCEval([x \in 1..Dim(n) |-> IF CtrlOn(x - 1, ctrl, n) THEN Add(Mul(cs, psi[x]), Mul(ms, pv[x])) ELSE psi[x]])
+\* terms: sequence of [w, k]; every index is multiplied by `mult` (time multiplier x power of the unitary)
+RECURSIVE QExpTermsFrom(_, _, _, _, _, _)
+QExpTermsFrom(terms, mult, ctrl, psi, n, j) ==
+  IF j > Len(terms) THEN psi
+  ELSE QExpTermsFrom(terms, mult, ctrl, QExpWord(terms[j].w, terms[j].k * mult, ctrl, psi, n), n, j + 1)
+QExpTerms(terms, mult, ctrl, psi, n) == QExpTermsFrom(terms, mult, ctrl, psi, n, 1)
+TermsCommute(terms, n) == \A a, b \in 1..Len(terms) : CommuteWords(terms[a].w, terms[b].w, n)
+\* words of a Hamiltonian on ns qubits padded with identities to n >= ns qubits
+PadTerms(terms, ns, n) == TLCEval([j \in 1..Len(terms) |->
+                             [w |-> TLCEval([q \in 1..n |-> IF q <= ns THEN terms[j].w[q] ELSE 0]), k |-> terms[j].k]])
+
+\* a user circuit applied `power` times on the subspace where all `ctrl` qubits are 1 (the circuit does not touch them)
+RECURSIVE RunPower(_, _, _, _)
+RunPower(psi, gates, n, power) == IF power = 0 THEN psi ELSE RunPower(Run(psi, gates, n), gates, n, power - 1)
+CtrlRunPower(psi, gates, n, power, ctrl) ==
+  LET on == RunPower(psi, gates, n, power)
+  IN TLCEval([x \in 1..Dim(n) |-> IF CtrlOn(x - 1, ctrl, n) THEN on[x] ELSE psi[x]])
+
+\* eigenphase index kappa (U v = zeta^kappa v), or -1 when v is not an eigenvector with a grid phase
+PhaseIndex(v, Uv, d) == LET S == {kp \in 0..(M - 1) : Uv = ScaleVec(v, Zeta(kp), d)}
+                        IN IF S = {} THEN -1 ELSE CHOOSE kp \in S : TRUE
+
+\* psi0 (ns qubits) (x) |r> (extra qubits, register index r: the extra qubits are the low bits of the index)
+TensorReg(psi0, ns, extra, r) ==
+  TLCEval([x \in 1..Dim(ns + extra) |-> IF (x - 1) % Pow2(extra) = r THEN psi0[((x - 1) \div Pow2(extra)) + 1] ELSE RZero])
+
+\* marginal probability that the qubits listed in L (first = least significant) hold the value r
+RegProb(psi, L, n, r) ==
+  SumRing(TLCEval([x \in 1..Dim(n) |-> IF RegVal(x - 1, L, n) = r THEN Abs2(psi[x]) ELSE RZero]), Dim(n))
 
 \* all ordered lists of w distinct qubits out of 0..n-1
 RegistersOf(n, w) == {L \in [1..w -> 0..(n - 1)] : Cardinality({L[j] : j \in 1..w}) = w}
